@@ -161,3 +161,10 @@ package directive
 //@   modifies nothing
 //@   ensures ret != nil && (ret.file == d.BodyCoords.file || ret.file == d.keywordCoords.file)
 //@   ensures [C02] ret.file == d.BodyCoords.file && d.BodyCoords.file != nil && d.BodyCoords.end != 0 ==> ret.index == d.BodyCoords.begin
+
+//@ func (*Directives).Update
+//@   tag C16 C01
+//@   requires m != nil && m.mx == 0 && fn != nil
+//@   oncallback requires m.mx == 2
+//@   oncallback keeps m.mx, m.data, m.order
+//@   ensures m.mx == 0
